@@ -1115,6 +1115,88 @@ func TestVerifC02(t *testing.T) {
 	c.Set("rule", "enumeration: per seed every 1-byte substitution/insertion/deletion/truncation of the encoded certificate, of its PEM text (standard) or of the handshake key/curve/version (handshake), plus structure-aware rewrites; a case is non-trivial when the altered input DECODES (so verification is what has to reject it); distinct = deduplicated by a 64-bit hash of (seed, altered bytes, key, curve, version)")
 	c.Set("rejected_by_verification", r.verifyRejected.Load())
 	c.Set("accepted_unchanged_identity_original_signature", r.accSame.Load())
+	// ---- P-256 signature value classes: short S / short R ---------------------------------------------------------------
+	// The seeds above carry whatever (r, s) the signer drew. The twin relation is arithmetic on s (n - s) followed by a DER
+	// re-encoding, and DER integers are minimal: an s (or n-s, or r) with leading zero bytes is encoded shorter. About one
+	// signature in 256 has such a value, so the seeds practically never do. Here certificates are re-issued until the
+	// low-S form has (a) an S of at most 31 bytes, (b) an S of at most 31 bytes whose top bit is set (needs the 0x00 pad),
+	// (c) an R of at most 31 bytes; for each, the genuine certificate and its independently computed twin must both
+	// verify, and blocklisting EITHER fingerprint must reject BOTH.
+	shortClasses := 0
+	for _, ver := range []Version{Version1, Version2} {
+		caPub, caPriv := c02P256Key(0x41)
+		leafPub, _ := c02P256Key(0x42)
+		caT := &TBSCertificate{Version: ver, Curve: Curve_P256, Name: "ca-short-s", PublicKey: caPub, IsCA: true,
+			NotBefore: time.Unix(1_000_000_000, 0), NotAfter: time.Unix(3_000_000_000, 0)}
+		ca := c02Sign(caT, nil, Curve_P256, caPriv)
+		found := map[string]bool{}
+		for try := 0; try < 200000 && len(found) < 3; try++ {
+			leafT := &TBSCertificate{Version: ver, Curve: Curve_P256, Name: fmt.Sprintf("short-%d", try), PublicKey: leafPub,
+				Networks: c02Prefixes("10.1.2.3/24"), NotBefore: time.Unix(1_500_000_000, 0), NotAfter: time.Unix(2_500_000_000, 0)}
+			leaf := c02Sign(leafT, ca, Curve_P256, caPriv)
+			var rs struct{ R, S *big.Int }
+			if _, err := asn1.Unmarshal(leaf.Signature(), &rs); err != nil {
+				c.Broken("short-S phase: issued signature does not parse: %v", err)
+			}
+			class := ""
+			switch {
+			case rs.S.BitLen() <= 248 && rs.S.BitLen()%8 == 0 && !found["short S with the top bit set (0x00 pad)"]:
+				class = "short S with the top bit set (0x00 pad)"
+			case rs.S.BitLen() <= 247 && !found["short S"]:
+				class = "short S"
+			case rs.R.BitLen() <= 247 && !found["short R"]:
+				class = "short R"
+			}
+			if class == "" {
+				continue
+			}
+			found[class] = true
+			shortClasses++
+			twinSig := c02Twin(leaf.Signature())
+			tw := leaf.Copy()
+			switch v := tw.(type) {
+			case *certificateV1:
+				v.signature = twinSig
+			case *certificateV2:
+				v.signature = twinSig
+			}
+			// both forms go through their wire encoding, as a peer would present them
+			forms := map[string]Certificate{}
+			for name, cc := range map[string]Certificate{"genuine (low-S)": leaf, "twin (high-S)": tw} {
+				d, _, err := UnmarshalCertificateFromPEM(c02Must(cc.MarshalPEM()))
+				if err != nil {
+					c.Broken("short-S phase: %s does not decode: %v", name, err)
+				}
+				forms[name] = d
+			}
+			fps := map[string]string{"genuine (low-S)": c02Must(forms["genuine (low-S)"].Fingerprint()), "twin (high-S)": c02Must(forms["twin (high-S)"].Fingerprint())}
+			mk := func(block ...string) *CAPool {
+				pool := NewCAPool()
+				if err := pool.AddCA(ca); err != nil && !strings.Contains(err.Error(), ErrExpired.Error()) {
+					panic(err)
+				}
+				for _, b := range block {
+					pool.BlocklistFingerprint(b)
+				}
+				return pool
+			}
+			at := c02Now
+			for name, d := range forms {
+				if _, err := mk().VerifyCertificate(at, d); err != nil {
+					continue // a form that is not accepted at all cannot escape a blocklist
+				}
+				for blocked, fp := range fps {
+						r.blkChecks.Add(1)
+					if _, err := mk(fp).VerifyCertificate(at, d); err == nil {
+						c.Violation(fmt.Sprintf("v%d/P256/%s: the accepted %s form escapes the blocklist entry of the %s form's fingerprint", ver, class, name, blocked),
+							map[string]any{"signature": hex.EncodeToString(d.Signature()), "blocklisted": fp, "verify_error": fmt.Sprint(err)})
+					}
+				}
+			}
+		}
+		c.Require(len(found) == 3, "short-S phase (v%d): not every signature value class was drawn: %v", ver, found)
+	}
+	c.Set("p256_short_value_classes_checked", shortClasses)
 	c.Set("accepted_unchanged_identity_twin_signature", r.accTwin.Load())
 	c.Set("blocklist_checks", r.blkChecks.Load())
 	c.Sample(map[string]any{"seed": seeds[0].label, "encoding_hex": hex.EncodeToString(seeds[0].raw), "identity": seeds[0].want})
